@@ -66,6 +66,33 @@ Placements(f, len) == {pl \in Sweep(f, len) \cup AuxPlacements(f, len) : Legal(f
 \* the rule table is closed: forbidden pairs name parameters of the function
 TableClosed == \A f \in Funcs : \A pr \in f.forbidden : pr \subseteq f.params /\ Cardinality(pr) = 2
 
+-----------------------------------------------------------------------------
+(* Second rule group: buffers that may overlap the STATE object.
+     "start": belt.h "Буферы key и state могут пересекаться" for every *Start with a key;
+     "get":   "mac / hash и state могут пересекаться" for beltMACStepG/G2, beltHashStepG/G2, beltHMACStepG2
+              (the state is finished by such a call: nothing is continued afterwards).
+   The state size is the implementation's keep() value, so positions are symbolic and resolved by the harness:
+     at0 / at1 : offset 0 / 1;  mid : the middle;  end / end1 : the buffer ends at / one octet before the state's end;
+     lo / hi : the buffer straddles the start / the end of the state (half inside).
+   Reference semantics: the call behaves as with disjoint buffers: after Start(key inside state) the mechanism
+   computes the one-shot value of the key AS IT WAS; Get(mac inside state) returns the one-shot tag. *)
+SPos == {"at0", "at1", "mid", "end", "end1", "lo", "hi"}
+SFn(n, k, lens) == [name |-> n, kind |-> k, lens |-> lens]
+StateFuncs == {
+  SFn("wbl", "start", {32, 48}), SFn("ecb", "start", {16, 33}), SFn("cbc", "start", {16, 33}), SFn("cfb", "start", {5, 33}),
+  SFn("ctr", "start", {5, 33}), SFn("mac", "start", {0, 16, 33}), SFn("dwp", "start", {5, 33}), SFn("che", "start", {5, 33}),
+  SFn("bde", "start", {16, 48}), SFn("sde", "start", {32, 48}), SFn("fmt", "start", {10, 17}), SFn("krp", "start", {32}),
+  SFn("macG", "get", {0, 16, 33}), SFn("macG2", "get", {16, 33}), SFn("hashG", "get", {0, 32, 65}), SFn("hashG2", "get", {32, 65}),
+  SFn("hmacG2", "get", {0, 33}) }
+KeyLens == {16, 24, 32}
+\* a straddling tag buffer would be written partly outside the state: allowed by the header (any overlap); a key buffer likewise
+StatePlacements(f) == {[pos |-> p, klen |-> k, len |-> n] : p \in SPos, k \in (IF f.kind = "start" THEN KeyLens ELSE {32}), n \in f.lens}
+\* besides the named positions the buffer is swept over EVERY offset at which it shares at least one octet with the
+\* state, off \in [-(blen - 1), keep - 1]; keep is the implementation's value, so the sweep is expanded by the check
+\* from this rule (one key length, one message length per function: SweepOf)
+SweepOf(f) == [klen |-> 32, len |-> (CHOOSE n \in f.lens : \A m \in f.lens : n >= m)]
+StateTableOk == \A f \in StateFuncs : f.kind \in {"start", "get"} /\ f.lens # {}
+
 VARIABLES phase, fn, len
 Init == phase = 0 /\ fn = "" /\ len = 0
 Next == \/ phase = 0 /\ phase' = 1 /\ \E f \in Funcs : fn' = f.name /\ len' \in f.lens
@@ -75,6 +102,12 @@ Next == \/ phase = 0 /\ phase' = 1 /\ \E f \in Funcs : fn' = f.name /\ len' \in 
                 IN JsonSerialize(IOEnv.GEN_DIR \o "/" \o fn \o "_" \o ToString(len) \o ".json",
                      [f |-> fn, len |-> len, hlen |-> f.hlen,
                       placements |-> {[doff |-> pl.doff, key |-> pl.key, iv |-> pl.iv, hdr |-> pl.hdr, tag |-> pl.tag] : pl \in pls}])
+StateNext == /\ phase = 0 /\ phase' = 3 /\ len' = 0
+             /\ \E f \in StateFuncs :
+                  /\ fn' = f.name
+                  /\ JsonSerialize(IOEnv.GEN_DIR \o "/state_" \o f.name \o ".json",
+                        [f |-> f.name, kind |-> f.kind, placements |-> StatePlacements(f), sweep |-> SweepOf(f)])
+NextAll == Next \/ StateNext
 NoForbidden == phase = 2 => LET f == CHOOSE g \in Funcs : g.name = fn IN
                   \A pl \in Placements(f, len) : Legal(f, len, pl)
 =============================================================================
